@@ -40,6 +40,9 @@ type c09Pod struct {
 	OnHost bool   `json:"on_host"` // record's interface is present on the host (else: no longer attached)
 	Legacy bool   `json:"legacy,omitempty"`
 	NoRes  bool   `json:"no_res,omitempty"` // record without resource items (pods served by a PodENI / the CRD path)
+	// RelFail: the first attempt to release this (vanished) pod's address fails (a cleanup
+	// step that cannot proceed); at most one pod per scenario
+	RelFail bool `json:"rel_fail,omitempty"`
 }
 
 type c09Scenario struct {
@@ -52,6 +55,11 @@ type c09Scenario struct {
 	// DEL of a vanished pod and ADDs of fresh pods are issued; a pod that received the
 	// vanished pod's address gets its policy rules installed; GC must not tear them down.
 	Stale bool `json:"stale,omitempty"`
+	// LookupRace: GC is held inside its API lookup for a vanished pod (the answer "absent"
+	// is already determined); meanwhile the pod is re-created under the same name and its ADD
+	// is issued. The ADD must either wait for GC or survive it: an acknowledged ADD keeps its
+	// record and its address.
+	LookupRace bool `json:"lookup_race,omitempty"`
 }
 
 func c09Gen(t *rapid.T) c09Scenario {
@@ -69,6 +77,19 @@ func c09Gen(t *rapid.T) c09Scenario {
 	s.Park = rapid.IntRange(-1, s.Passes-1).Draw(t, "park")
 	s.Order = rapid.Permutation(vtRange(n)).Draw(t, "order")
 	s.Stale = rapid.IntRange(0, 3).Draw(t, "stale") == 0
+	if !s.Stale {
+		s.LookupRace = rapid.IntRange(0, 3).Draw(t, "lookuprace") == 0
+	}
+	if rapid.IntRange(0, 3).Draw(t, "relfail") == 0 {
+		// one vanished, ordinary record whose release fails once
+		for i := range s.Pods {
+			p := &s.Pods[i]
+			if (p.Class == c09Absent || p.Class == c09AbsSticky) && !p.Legacy && !p.NoRes {
+				p.RelFail = true
+				break
+			}
+		}
+	}
 	return s
 }
 
@@ -190,6 +211,13 @@ func c09RunOpt(c *vt.Ctx, s c09Scenario, noGuard bool) {
 
 	// 3. start the service from the store (the pool re-applies the bindings)
 	cfg := vsPoolCfg{V6: s.V6, Cap: n + 2, Batch: 2, MaxIdle: 2 * (n + 2), PreENIs: []int{n + 1, n + 1}}
+	delay := 0 // passes by which collection may be late because one cleanup step failed once
+	for _, p := range s.Pods {
+		if p.RelFail {
+			cfg.FailRelease = true
+			delay = 1
+		}
+	}
 	w, err := vsStart(cfg, cloud, k, dir, dbPath)
 	if err != nil {
 		c.Fatalf("service start failed: %v", err)
@@ -200,6 +228,14 @@ func c09RunOpt(c *vt.Ctx, s c09Scenario, noGuard bool) {
 	}
 	gate := &c04Gate{}
 	k.gate = func(key string) { gate.point("k8s:" + key) }
+	if w.failNI != nil {
+		for i, p := range s.Pods {
+			if p.RelFail {
+				w.failNI.failOnce[vsKey("ns", c09Name(i))] = true
+				c.Label("release-fails-once")
+			}
+		}
+	}
 
 	recJSON := func(i int) string {
 		r, ok := w.record(c09Name(i))
@@ -270,6 +306,15 @@ func c09RunOpt(c *vt.Ctx, s c09Scenario, noGuard bool) {
 	staleRan := false
 	if s.Stale {
 		staleRan = c09StaleStep(c, s, w, k, addr)
+	} else if s.LookupRace {
+		if x := c09LookupRaceStep(c, s, w, k, addr); x >= 0 {
+			staleRan = true
+			// x is a running pod with a fresh record from now on
+			s.Pods = append([]c09Pod(nil), s.Pods...)
+			s.Pods[x].Class = c09Running
+			s.Pods[x].RelFail = false
+			initial[x] = recJSON(x)
+		}
 	}
 
 	var afterPass2 string
@@ -348,6 +393,12 @@ func c09RunOpt(c *vt.Ctx, s c09Scenario, noGuard bool) {
 				if hasNoIfaceAbsent && knownNoIface {
 					continue
 				}
+				if now == "" && owned(i) && !p.Legacy {
+					c.Fatalf("GC pass %d removed the record of vanished pod %s but its address is still owned in the pool (release failed: %v)", pass, name, p.RelFail)
+				}
+				if pass < delay {
+					continue // one cleanup step failed in this scenario: collection may take one more pass
+				}
 				if now != "" {
 					c.Fatalf("GC pass %d did not collect the record of vanished pod %s (interface on host: %v, legacy: %v)", pass, name, p.OnHost, p.Legacy)
 				}
@@ -360,6 +411,12 @@ func c09RunOpt(c *vt.Ctx, s c09Scenario, noGuard bool) {
 				}
 			case c09AbsSticky:
 				if hasNoIfaceAbsent && knownNoIface {
+					continue
+				}
+				if now == "" && owned(i) && !p.Legacy {
+					c.Fatalf("GC pass %d removed the record of vanished sticky pod %s but its address is still owned in the pool (release failed: %v)", pass, name, p.RelFail)
+				}
+				if pass >= 1 && pass < 1+delay {
 					continue
 				}
 				if pass == 0 {
@@ -387,7 +444,7 @@ func c09RunOpt(c *vt.Ctx, s c09Scenario, noGuard bool) {
 			afterPass2 = w.storeDump() + w.statusDump()
 		}
 		if pass == 2 {
-			if now := w.storeDump() + w.statusDump(); now != afterPass2 && !(hasNoIfaceAbsent && knownNoIface) {
+			if now := w.storeDump() + w.statusDump(); now != afterPass2 && !(hasNoIfaceAbsent && knownNoIface) && delay == 0 {
 				c.Fatalf("third GC pass is not idempotent:\nafter pass 2 %s\nafter pass 3 %s", afterPass2, now)
 			}
 		}
@@ -518,6 +575,92 @@ func c09StaleStep(c *vt.Ctx, s c09Scenario, w *vsWorld, k *vsK8s, addr map[int][
 		}
 	}
 	return true
+}
+
+// c09LookupRaceStep, see c09Scenario.LookupRace. Returns the index of the pod that was
+// re-created and successfully ADDed, or -1.
+func c09LookupRaceStep(c *vt.Ctx, s c09Scenario, w *vsWorld, k *vsK8s, addr map[int][2]string) int {
+	x := -1
+	for i, p := range s.Pods {
+		if p.Class == c09Absent && !p.Legacy && !p.NoRes && !p.RelFail {
+			x = i
+			break
+		}
+	}
+	if x < 0 {
+		return -1
+	}
+	c.Label("lookup-race-step")
+	xkey := vsKey("ns", c09Name(x))
+	g := &c04Gate{}
+	g.arm(1)
+	k.existGate = func(key string) {
+		if key == xkey {
+			g.point("k8s:exist:" + key)
+		}
+	}
+	defer func() { k.existGate = nil }()
+	gcDone := make(chan struct{})
+	go func() { _ = w.svc.gcPods(context.Background()); close(gcDone) }()
+	select {
+	case <-g.parked:
+	case <-gcDone:
+		return -1 // GC did not look the pod up (e.g. it aborted earlier); an ordinary pass
+	case <-time.After(2 * time.Second):
+		c.Inconclusive("gc did not reach the API lookup")
+	}
+	// the pod is re-created under the same name and the runtime ADDs its sandbox
+	k.setPod(c09Name(x), fmt.Sprintf("uid-%d-b", x), false)
+	newCid := fmt.Sprintf("cid-%d-b", x)
+	type out struct {
+		v4, v6 string
+		err    error
+	}
+	addDone := make(chan out, 1)
+	go func() {
+		ctx, cancel := context.WithTimeout(context.Background(), 5*time.Second)
+		defer cancel()
+		rep, err := w.svc.AllocIP(ctx, vsAddReq(c09Name(x), newCid))
+		o := out{err: err}
+		if err == nil {
+			o.v4, o.v6 = vsReplyAddrs(rep.NetConfs)
+		}
+		addDone <- o
+	}()
+	var o out
+	early := false
+	select {
+	case o = <-addDone:
+		early = true
+		c.Label("lookup-race:add-completed-while-gc-held")
+	case <-time.After(100 * time.Millisecond):
+	}
+	close(g.release)
+	select {
+	case <-gcDone:
+	case <-time.After(5 * time.Second):
+		c.Inconclusive("gc did not finish")
+	}
+	if !early {
+		select {
+		case o = <-addDone:
+		case <-time.After(6 * time.Second):
+			c.Inconclusive("ADD did not finish after gc")
+		}
+	}
+	if o.err != nil {
+		return -1
+	}
+	rec, ok := w.record(c09Name(x))
+	if !ok || rec.ContainerID == nil || *rec.ContainerID != newCid {
+		c.Fatalf("ADD for re-created pod %s (sandbox %s, address %s) was acknowledged, but after the concurrent GC pass its record is gone or not its own (present=%v): GC acted on a pod with a request in flight", c09Name(x), newCid, o.v4, ok)
+	}
+	owners := w.owners()
+	if owners[o.v4] != xkey {
+		c.Fatalf("ADD for re-created pod %s was acknowledged with %s, but after the concurrent GC pass the pool shows owner %q for it", c09Name(x), o.v4, owners[o.v4])
+	}
+	addr[x] = [2]string{o.v4, o.v6}
+	return x
 }
 
 func TestVerifC09GC(t *testing.T) { vt.Run(t, c09Gen, c09Run) }
